@@ -72,6 +72,14 @@ def h_csv_linebreaks(params):
         if params.get("reindex"):
             apply_op(h, ("reindex",))
         hc.check_getters(h, [None, "m"], True)
+        # the same after the file was rewritten (handle reopened) by an update and a removal
+        apply_op(h, ("ins", {"time": SYM, "meas": "n", "tags": {"k": "gone"}, "fields": {"f": 9}}))
+        apply_op(h, ("upd", ("tag", "k", "==", "gone"), {"fields": {"f": 10}}))
+        hc.check_getters(h, [None, "m"], False)
+        apply_op(h, ("rm", ("tag", "k", "==", "gone")))
+        if params.get("reindex"):
+            apply_op(h, ("reindex",))
+        hc.check_getters(h, [None, "m", "n"], True)
 
     run_path({"storage": "csv", "auto_index": params.get("ai", True), "csv_times": 2}, body)
 
